@@ -28,7 +28,7 @@ impl Rng {
     }
 }
 
-fn hist<T: CellT + std::hash::Hash>(seed: u64, histories: usize, steps: usize, maxdim: usize, out: &mut impl Write) {
+fn hist<T: CellT + std::hash::Hash>(seed: u64, histories: usize, steps: usize, maxdim: usize, out: &mut impl Write, faults: bool) {
     let mut rng = Rng(seed);
     let noarg = json!({"z": 0});
     for h in 0..histories {
@@ -70,6 +70,26 @@ fn hist<T: CellT + std::hash::Hash>(seed: u64, histories: usize, steps: usize, m
         for _ in 0..steps {
             // current dimensions (only readable while no drain is outstanding)
             if !m.handle.is_none() {
+                if faults && rng.chance(18) {
+                    // C12: leak the drain at this stage of consumption; or C11: a destructor panics while it is dropped
+                    let (op, f) = if rng.chance(60) {
+                        ("d_forget", json!({"kind": "forget", "site": "none", "k": 0, "lie": "none"}))
+                    } else {
+                        ("d_drop", json!({"kind": "panic_at", "site": "drop", "k": rng.below(4), "lie": "none"}))
+                    };
+                    if f["kind"] == "panic_at" {
+                        tdverif::fault::arm(tdverif::fault::Site::Drop, f["k"].as_u64().unwrap() as u32);
+                    }
+                    m.in_fault = true;
+                    let r = m.call(op, &noarg, &[], LenMode::True);
+                    m.in_fault = false;
+                    let fired = tdverif::fault::fired();
+                    tdverif::fault::disarm();
+                    let mut e = event::<T>(&m, op, &noarg, &r, Some(&f), fired, &[], &[]);
+                    e["case"] = json!(h);
+                    events.push(e);
+                    continue;
+                }
                 let op = ["d_next", "d_next_back", "d_len", "d_drop", "d_drop"][rng.below(5)];
                 let r = m.call(op, &noarg, &[], LenMode::True);
                 emit(&m, op, &noarg, &r, &mut events);
@@ -125,6 +145,48 @@ fn hist<T: CellT + std::hash::Hash>(seed: u64, histories: usize, steps: usize, m
                 _ => ("reserve_exact", json!({"k": rng.below(5)})),
             };
             let conc: Vec<usize> = index_args(op, &a).iter().map(|&v| if v > 1_000_000 { usize::MAX } else { v as usize }).collect();
+            // C11: now and then caller-supplied code panics (or lies) inside the call
+            let fault: Option<(Value, LenMode)> = if faults && rng.chance(12) {
+                let nitems = a.get("items").and_then(|v| v.as_array()).map(|v| v.len()).unwrap_or(0);
+                match op {
+                    "insert_row" | "push_row" | "insert_col" | "push_col" => {
+                        let site = if op.ends_with("row") { "next" } else { "next_back" };
+                        match rng.below(6) {
+                            0 => Some((json!({"kind": "panic_at", "site": "len", "k": rng.below(2), "lie": "none"}), LenMode::True)),
+                            1 => Some((json!({"kind": "lie", "site": "none", "k": 0, "lie": "minus1"}), LenMode::Minus1)),
+                            2 => Some((json!({"kind": "lie", "site": "none", "k": 0, "lie": "plus1"}), LenMode::Plus1)),
+                            3 => Some((json!({"kind": "lie", "site": "none", "k": 0, "lie": "max"}), LenMode::Max)),
+                            _ => Some((json!({"kind": "panic_at", "site": site, "k": rng.below(nitems + 2), "lie": "none"}), LenMode::True)),
+                        }
+                    }
+                    "fill" => Some((json!({"kind": "panic_at", "site": if rng.chance(50) { "clone" } else { "drop" }, "k": rng.below(c * r_ + 1), "lie": "none"}), LenMode::True)),
+                    "clone" | "from_view" => Some((json!({"kind": "panic_at", "site": "clone", "k": rng.below(c * r_ + 1), "lie": "none"}), LenMode::True)),
+                    "clear" | "set" => Some((json!({"kind": "panic_at", "site": "drop", "k": rng.below(c * r_ + 1), "lie": "none"}), LenMode::True)),
+                    "sort_by_row" | "sort_by_col" => Some((json!({"kind": "panic_at", "site": "cmp", "k": rng.below(2 * (c + r_) + 1), "lie": "none"}), LenMode::True)),
+                    _ => None,
+                }
+            } else {
+                None
+            };
+            if let Some((f, mode)) = fault {
+                if std::env::var("DRIVE_DEBUG").is_ok() {
+                    eprintln!("history {h}: {op} {a} fault {f} dims ({c},{r_})");
+                }
+                if f["kind"] == "panic_at" {
+                    tdverif::fault::arm(tdverif::fault::Site::parse(f["site"].as_str().unwrap()).unwrap(), f["k"].as_u64().unwrap() as u32);
+                }
+                let supplied: Vec<u32> = a.get("items").and_then(|v| v.as_array()).map(|l| l.iter().map(|x| x.as_u64().unwrap() as u32).collect())
+                    .or_else(|| a.get("v").and_then(|v| v.as_u64()).map(|v| vec![v as u32])).unwrap_or_default();
+                m.in_fault = true;
+                let r = m.call(op, &a, &conc, mode);
+                m.in_fault = false;
+                let fired = tdverif::fault::fired();
+                tdverif::fault::disarm();
+                let mut e = event::<T>(&m, op, &a, &r, Some(&f), fired, &[], &supplied);
+                e["case"] = json!(h);
+                events.push(e);
+                continue;
+            }
             let r = m.call(op, &a, &conc, LenMode::True);
             emit(&m, op, &a, &r, &mut events);
         }
@@ -246,10 +308,11 @@ fn main() {
             let steps: usize = args[4].parse().unwrap();
             let maxdim: usize = args[5].parse().unwrap();
             let mut out = std::io::BufWriter::new(std::fs::File::create(&args[6]).unwrap());
+            let faults = args.get(8).map(|s| s == "faults").unwrap_or(false);
             match args.get(7).map(|s| s.as_str()).unwrap_or("elem") {
-                "zst" => hist::<Zst>(seed, histories, steps, maxdim, &mut out),
-                "u32" => hist::<K32>(seed, histories, steps, maxdim, &mut out),
-                _ => hist::<Elem>(seed, histories, steps, maxdim, &mut out),
+                "zst" => hist::<Zst>(seed, histories, steps, maxdim, &mut out, faults),
+                "u32" => hist::<K32>(seed, histories, steps, maxdim, &mut out, faults),
+                _ => hist::<Elem>(seed, histories, steps, maxdim, &mut out, faults),
             }
         }
         "sort" => {
